@@ -132,6 +132,26 @@ pub trait FromMeta: Sized {
                 // we just propagate the call to the inner expression.
                 Self::from_expr(&group.expr)
             }
+            // `name = -1` is parsed by syn as a (negative) literal only when nothing follows it;
+            // before another item of the same list the value arrives as the negation of a
+            // literal. Both spellings mean the same number.
+            Expr::Unary(syn::ExprUnary {
+                op: syn::UnOp::Neg(_),
+                expr: ref operand,
+                ..
+            }) if matches!(
+                **operand,
+                Expr::Lit(syn::ExprLit {
+                    lit: Lit::Int(_) | Lit::Float(_),
+                    ..
+                })
+            ) =>
+            {
+                match syn::parse2::<Lit>(quote::ToTokens::to_token_stream(expr)) {
+                    Ok(lit) => Self::from_value(&lit),
+                    Err(_) => Err(Error::unexpected_expr_type(expr)),
+                }
+            }
             _ => Err(Error::unexpected_expr_type(expr)),
         }
         .map_err(|e| e.with_span(expr))
